@@ -275,6 +275,20 @@ def trig_nodes(pipe):
     return trig
 
 
+def race_models(ctx):
+    """TLC: the two lock-free hand-offs at atomic granularity (safety + termination under fairness), and their spec-level mutations,
+    which must violate the properties (non-vacuity)."""
+    for mod in ("StopImmediately", "TakeUntil"):
+        vlib.model_check(ctx, "stream", mod, workers=1, timeout=600)
+    for mod, cfg in (("StopImmediately", "StopImmediately_mut_hs.cfg"), ("StopImmediately", "StopImmediately_mut_cl.cfg"), ("TakeUntil", "TakeUntil_mut_k3.cfg")):
+        r = vlib.model_check(ctx, "stream", mod, cfg=cfg, must_hold=False, workers=1, timeout=600)
+        bad = r["kind"] in ("invariant", "assert", "liveness") or "Termination was violated" in r["out"]
+        if not bad:
+            raise vlib.Broken("the spec-level mutation %s is expected to violate the properties of %s; TLC says %s" % (cfg, mod, r["kind"]))
+        ctx.rep.note("%s: mutation violates %s as expected (the properties of the race model are not vacuous)" % (
+            cfg, r["violated"] or ("Termination" if "Termination was violated" in r["out"] else r["kind"])))
+
+
 def run_race(ctx):
     """Controlled threads: source completer(s), stopper, consumer; DFS with preemption bound + seeded random schedules."""
     rep = ctx.rep
@@ -350,8 +364,134 @@ def run_race(ctx):
     if ex:
         e = ex[len(ex) // 3]
         rep.sample(dict(kind="recorded-race-trace", scenario=scns[e[0] // DIV]["text"] if e[0] is not None else None, events=[json.loads(l) for l in e[1][:40]]))
+    run_guided_models(ctx, exe)
     rep.rule("one race evaluation = one schedule (DFS with preemption bound / seeded random) of a scenario (pipeline x source scripts x stopper) on the real code "
              "under the thread controller, event log validated against StreamMon")
+
+
+# ----------------------------------------------------------------------------- guided replay of the race models
+def _walks(edges_path):
+    adj = collections.defaultdict(list)
+    targets = set()
+    for l in open(edges_path):
+        e = json.loads(l)
+        s, t = tuple(e["s"]), tuple(e["t"])
+        adj[s].append((t, e))
+        targets.add(t)
+    inits = [s for s in adj if s not in targets]
+    return vlib.edge_cover(adj, inits)
+
+
+def si_entry(e):
+    """One transition of StopImmediately.tla -> schedule entry on the code (thread 1 consumer, 2 source completer, 3 stopper)."""
+    v, w = e["v"], e["w"]
+    if v["pcC"] != w["pcC"]:
+        l = v["pcC"]
+        return {"c0": [2, "stream.si.hs_load"], "c1": [2, "stream.si.hs_cas1"] if v["oldC"] == "active" else None,
+                "cdeliver": [2, "stream.si.hs_deliver"], "c2": [2, "stream.si.hs_cas2"] if v["oldC"] == "stopped" else None, "c3": None}[l]
+    if v["pcS"] != w["pcS"]:
+        l = v["pcS"]
+        return {"s0": [3, "stream.si.cb_load"], "s1": [3, "stream.si.cb_cas"] if v["oldS"] == "active" else None, "s2": [3, "stream.si.cb_deliver"]}[l]
+    l = v["pcK"]
+    return {"k0": [1, "stream.si.cl_load"], "k1": [1, "stream.si.cl_cas"] if v["oldK"] == "stopped" else None, "k2": None}[l]
+
+
+def tu_entry(e):
+    """One transition of TakeUntil.tla -> schedule entry (thread 1 consumer, 2 source completer, 3 trigger completer)."""
+    v, w = e["v"], e["w"]
+    if v["pcT"] != w["pcT"]:
+        return {"t0": [3, "stream.tu.tnd_load"], "t1": [3, "stream.tu.tnd_xchg"]}[v["pcT"]]
+    if v["pcK"] != w["pcK"]:
+        return {"k0": [1, "stream.tu.cl_load", "arrive"], "k1": [1, "stream.tu.cl_load"], "k2": None, "k3": [1, "stream.tu.cl_xchg"]}[v["pcK"]]
+    if v["pcSC"] != w["pcSC"]:
+        return {"sc0": [2, "stream.tu.join_load"], "x1": [2, "stream.tu.join_xchg"], "deliver": None}[v["pcSC"]]
+    return {"tc0": [3, "stream.tu.join_load"], "x1": [3, "stream.tu.join_xchg"], "deliver": None}[v["pcTC"]]
+
+
+def run_guided_models(ctx, exe):
+    """Every behaviour (edge cover) of StopImmediately.tla / TakeUntil.tla is replayed on the real adaptor at the corresponding schedule
+    points; what the model predicts about the outcome is compared (drift), the event log goes to StreamMon."""
+    rep = ctx.rep
+    scns, preds = [], []
+    for mod, kind, entry in (("StopImmediatelyX", "si", si_entry), ("TakeUntilX", "tu", tu_entry)):
+        ep = os.path.join(ctx.work, mod + ".edges")
+        vlib.model_check(ctx, "stream", mod, env={"EDGES": ep}, workers=1, timeout=600)
+        walks = _walks(ep)
+        P = RACE_PIPES[kind]
+        for wk in walks:
+            if kind == "si":
+                src = {"2": S(1, "d", [0, 0], "ignore", "id")}
+                sched = [[1, "stream.h.op"]]                     # the consumer calls next(): callback registered, next(source_) in flight
+            else:
+                src = {"2": S(1, "d", [0, 0], "ignore", "dd"), "3": S(1, "d", [0, 0], "ignore", "dd")}
+                sched = [[1, "stream.h.op"], [2, "stream.h.op"]]   # next() issued; the source's next() completes with a value
+            sched += [x for x in (entry(e) for e in wk) if x]
+            last = wk[-1]["w"]
+            scns.append(dict(kind=kind, stopper=(kind == "si"), src=src, drvNexts=1, sched=sched, model=mod,
+                             pipe=dict(cons=2, kind=P["kind"], kids=P["kids"], arg=[0] * len(P["kind"]), root=P["root"]),
+                             text="guided:manual(%s)" % P["text"]))
+            preds.append(last)
+    for i, sc in enumerate(scns):
+        sc["id"] = i
+    sp = os.path.join(ctx.work, "guided_scenarios.json")
+    json.dump(scns, open(sp, "w"))
+    lp = os.path.join(ctx.work, "guided.ndjson")
+    gp = os.path.join(ctx.work, "guided_out.ndjson")
+    DIV = 100000
+    sums, deaths = run_replay(ctx, exe, ["--mode", "guided", "--scenarios", sp, "--stopsites", 2, "--gout", gp], len(scns), lp, unit_div=DIV, max_fatal=6)
+    rep.evaluations += len(scns)
+    tainted = set()
+    for d in deaths:
+        x = d["x"]
+        sc = scns[x // DIV] if x // DIV < len(scns) else None
+        tainted.add(x)
+        kinds = sorted(set(sc["pipe"]["kind"])) if sc else []
+        rep.violation(dict(engine="stream", mode="race-guided", event=d["event"], shape=sc["text"] if sc else "?", kinds=kinds, scenario=sc,
+                           sig="%s|%s:%s:%s@%s" % ("take_until" if "take_until" in kinds else "-", d["event"], d.get("asan", ""), d.get("frame", ""), ",".join(d.get("marks", []))),
+                           what="%s in the guided replay of a %s behaviour: %s %s" % (d["event"], sc["model"] if sc else "?", d.get("asan", ""), d.get("frame", "")),
+                           detail=d.get("stderr_tail")))
+    n, rejected = vlib.validate_batched(ctx, "stream", "StreamMon", lp, skip_x=tainted, max_reports=4)
+    for rj in rejected:
+        x = rj["x"]
+        sc = scns[x // DIV] if x is not None and x // DIV < len(scns) else None
+        nxt = rj["events"][rj["prefix"]] if rj.get("prefix") is not None and rj["prefix"] < len(rj["events"]) else None
+        kinds = sorted(set(sc["pipe"]["kind"])) if sc else []
+        rep.violation(dict(engine="stream", mode="race-guided", event="MonitorReject", monitor="StreamMon", shape=sc["text"] if sc else "?", kinds=kinds, scenario=sc,
+                           rejected_event=nxt, sig="%s|%s" % ("take_until" if "take_until" in kinds else "-", ev_sig(nxt)),
+                           what="StreamMon rejects the guided replay of a %s behaviour at event %s (%s); schedule %s" % (
+                               sc["model"] if sc else "?", rj.get("prefix"), json.dumps(nxt), json.dumps(sc["sched"]) if sc else ""), events=rj["events"][:200]))
+    # drift: schedule points not where the model says / outcome differs from the model's prediction
+    gout = {}
+    if os.path.exists(gp):
+        for l in open(gp):
+            try:
+                g = json.loads(l)
+                gout[g["x"] // DIV] = g
+            except Exception:
+                pass
+    execs = {e[0] // DIV: e[1] for e in vlib.split_executions(lp) if e[0] is not None}
+    ndrift = nout = 0
+    for i, sc in enumerate(scns):
+        g = gout.get(i)
+        if g is None:
+            continue
+        bad = None
+        if g["drift"]:
+            bad = "schedule drift: %s" % g["first"]
+            ndrift += 1
+        evs = [json.loads(l) for l in execs.get(i, [])]
+        if sc["kind"] == "si" and not bad:
+            nd = [e for e in evs if e.get("e") == "DrvNextDone"]
+            want = "d" if preds[i]["deliveredDone"] else "v"
+            if preds[i]["delivered"] == 1 and nd and nd[0]["ch"] != want:
+                bad = "model predicts next() completes with %s, the code delivered %s" % (want, nd[0]["ch"])
+                nout += 1
+        if bad:
+            rep.drift += 1
+            if ndrift + nout <= 3:
+                rep.note("guided %s: %s; schedule %s" % (sc["model"], bad, json.dumps(sc["sched"])))
+    rep.note("guided replay of the race models: %d behaviours (edge covers of StopImmediately.tla and TakeUntil.tla) executed at the corresponding "
+             "schedule points, %d validated against StreamMon, %d with schedule drift, %d with an outcome other than predicted" % (len(scns), n, ndrift, nout))
 
 
 def ev_sig(e):
@@ -374,6 +514,7 @@ def run(ctx):
     only = set(filter(None, os.environ.get("VERIF_STREAM_ONLY", "").split(",")))
     part = os.environ.get("VERIF_STREAM_PART", "all")       # development / self-test aid: "seq" | "race" | "all"
     if part == "race":
+        race_models(ctx)
         run_race(ctx)
         return
     rep.assume("pipelines from the catalogue (consumer reduce_stream / for_each / manual next()-cleanup() driver over <= 3 stream adaptors, <= 3 harness sources); "
@@ -412,9 +553,7 @@ def run(ctx):
         else:
             vlib.model_check(ctx, "stream", "StreamsMacro", env=env, workers=1, timeout=3000, xmx="6g")
         return kind, g, time.time() - t0
-    # ---- TLC: the two lock-free hand-offs at atomic granularity (design-level race models; safety + termination under fairness)
-    for mod in ("StopImmediately", "TakeUntil"):
-        vlib.model_check(ctx, "stream", mod, workers=1, timeout=600)
+    race_models(ctx)
     par = max(1, min(4, vlib.NCPU // 2))
     with concurrent.futures.ThreadPoolExecutor(max_workers=par) as ex:
         for kind, g, secs in ex.map(tlc_job, jobs):
